@@ -119,7 +119,7 @@ def main():
         }],
         "checks": checks,
         "not_applicable": na,
-        "notes": "All claims are level 'other' (static structural necessary conditions). quick = all rules of the property with the CHA call graph; thorough = the same rules with the VTA call graph, a second load under GOARCH=386, and the must-fire corpus (mutants + seeded changes) applied to scratch copies of the current tree. Known findings: /verif/known_findings.txt.",
+        "notes": "All claims are level 'other' (static structural necessary conditions). quick = all rules of the property (VTA-refined call graph); thorough = the same rules, a second load under GOARCH=386, and the checker-QA corpora (must-fire: mutants + seeded changes; must-stay-silent: single-idea refactors and large rewrites) applied to scratch copies of the current tree. Known findings: /verif/known_findings.txt.",
     }
     json.dump(m, open(os.path.join(HERE, "MANIFEST.json"), "w"), indent=1)
     print("claimed:", [c["property_id"] for c in checks])
